@@ -63,4 +63,26 @@ def lfsr15 (x : Nat) : Nat := x / 2 + 16384 * ((x % 2 + x / 2 % 2) % 2)
 /-- the 7-bit noise generator (NR43 bit 3): the same on 7 bits, the XOR enters at bit 6 -/
 def lfsr7 (x : Nat) : Nat := x / 2 + 64 * ((x % 2 + x / 2 % 2) % 2)
 
+/-! ## C20 – mixer and sample pacing -/
+
+/-- a channel as one side of the mixer sees it: routed to this side by NR51, channel on, and the
+    channel's DAC input as a numerator over 120 (square/noise: 15·bit·volume, wave: 8·sample) -/
+structure MixIn where
+  routed : Bool
+  on : Bool
+  num : Nat
+
+/-- one output sample = `sideNum / 19200`: the routed, enabled channels are summed, divided by 4,
+    scaled by (master volume)/8 and by the fixed factor 0.6 = 3/5  (120·4·8·5 = 19200) -/
+def sideNum (chs : List MixIn) (vol : Nat) : Nat :=
+  3 * ((chs.filter (fun c => c.routed && c.on)).map (fun c => c.num)).sum * vol
+
+def sampleDen : Nat := 19200
+/-- the largest numerator: three 4-bit-volume channels at 15·15, the wave at 8·15, master volume 7 -/
+def maxNum : Nat := 3 * (225 + 225 + 120 + 225) * 7
+
+/-- one sample for every 95 clocks: number of multiples of 95 among the clock-counter values
+    t, t+1, …, t+n−1 -/
+def samplesIn (t n : Nat) : Nat := (t + n + 94) / 95 - (t + 94) / 95
+
 end Tetro.Spec.Apu
